@@ -32,15 +32,16 @@ TLC_PAR = 8                       # single-worker TLC instances side by side
 SIM_PAR = {"quick": 4, "thorough": 12}
 RUNS_PER_FILE = {"quick": 3, "thorough": 22}
 
-PROPERTY_CLAUSES = {"nan", "motor_limit", "rate_integrator", "z_integrator", "attitude_settle", "yaw_settle",
+PROPERTY_CLAUSES = {"nan", "ground_contact", "motor_limit", "rate_integrator", "z_integrator", "attitude_settle", "yaw_settle",
                     "rate_settle", "position_settle"}
 MACHINERY_CLAUSES = {"type", "clock", "launch", "trace_incomplete", "not_started"}
-INV2CLAUSE = {"TypeOK": "type", "ClockOK": "clock", "LaunchOK": "launch", "NoNan": "nan", "MotorLimit": "motor_limit",
+INV2CLAUSE = {"TypeOK": "type", "ClockOK": "clock", "LaunchOK": "launch", "NoNan": "nan", "Airborne": "ground_contact", "MotorLimit": "motor_limit",
               "RateIntegratorBound": "rate_integrator", "ZIntegratorBound": "z_integrator",
               "AttitudeSettled": "attitude_settle", "YawSettled": "yaw_settle", "RateSettled": "rate_settle",
               "PositionSettled": "position_settle", "StaysSettled": "position_settle",
               "StaysAttSettled": "attitude_settle|rate_settle"}
 WHAT = {"nan": "a plant state or controller signal became non-finite",
+        "ground_contact": "the vehicle, launched at least 7 m above the model's ground plane, fell to the ground (z <= 0) instead of converging",
         "motor_limit": "a motor command left [0, sqrt(F_max/C_T)]",
         "rate_integrator": "the rate-loop integrator left [-i_max, i_max]",
         "z_integrator": "the z integrator left [-z_integral_max, z_integral_max]",
@@ -193,6 +194,7 @@ def selftest(run, src_file, workdir):
         (5, "attitude_settle", 1200, setf(1200, tilt=60)),
         (6, "rate_settle", 2999, setf(2999, rate=101)),
         (7, "nan", 10, setf(10, nan=1)),
+        (12, "ground_contact", 333, setf(333, alt=0)),
         (8, "rate_integrator", 55, setf(55, ri0=base[0]["imax"][0] + 1)),
         (9, "trace_incomplete", 100, lambda r: None if r["k"] == 100 else r),               # a dropped line
         (10, "trace_incomplete", n - 10, lambda r: None if r["k"] >= n - 10 else r),        # a truncated run
@@ -233,7 +235,7 @@ def enumerate_ics(run, tier):
         c = st["ic"]
         if c.get("kind") == "ic":
             ics.append({"mode": c["mode"], "q": list(c["q"]), "yaw": list(c["yaw"]), "q0": list(c["q0"]),
-                        "off": list(c["off"]), "vel": list(c["vel"]), "rate": list(c["rate"])})
+                        "off": list(c["off"]), "vel": list(c["vel"]), "rate": list(c["rate"]), "spi": int(c["spi"])})
     ics.sort(key=lambda c: (heading_deg(c) != 0, c["mode"], c["q"], c["yaw"], c["off"], c["vel"], c["rate"]))
     dom = [c for c in ics if heading_deg(c) == 0]        # the domain the property lists (alarming)
     bey = [c for c in ics if heading_deg(c) != 0]        # commanded heading /= 0 (reported only)
@@ -247,6 +249,7 @@ def enumerate_ics(run, tier):
         "exactly 60 deg": has(lambda c: c["q"][0] ** 2 == 3 * sum(v * v for v in c["q"][1:])),
         "identity attitude": has(lambda c: c["q"][1:] == [0, 0, 0]),
         "3 m offsets": has(lambda c: max(abs(v) for v in c["off"]) == 3),
+        "both hover positions in both modes": all(any(c["spi"] == k and c["mode"] == m for c in ics) for k in (0, 1) for m in cascade.MODES),
         "non-zero velocity and rate": has(lambda c: any(c["vel"]) and any(c["rate"])),
         "commanded heading >= 90 deg in both modes (beyond-property runs)": all(
             has(lambda c, m=m: c["mode"] == m and abs(heading_deg(c)) >= 90, bey) for m in cascade.MODES),
@@ -333,6 +336,7 @@ def body(run, tier):
         ic = {k: (list(v) if isinstance(v, (list, tuple)) else v) for k, v in ic.items() if k in ("mode", "q", "yaw", "q0", "off", "vel", "rate")}
         ic.setdefault("yaw", [1, 0, 0, 0])
         ic.setdefault("q0", ic["q"])
+        ic.setdefault("spi", 0)
         files, summ, _ = simulate(run, [[ic]], "quick", workdir)
         rejects, st = validate_files(run, files, workdir, "replay")
         run.tlc.append(st)
